@@ -77,7 +77,7 @@ SignedNumber(od) == od.kind \in {"scalar", "slice", "ptr", "sliceptr"} /\ (IsSig
 MultiValued(od) == od.kind \in {"slice", "map", "counter", "sliceptr"}
 
 \* zero value of a field as the harness reports it (a sequence of canonical texts)
-ZeroText(t) == CASE t = "string" -> E [] t = "cc" -> E [] t = "um" -> E [] t = "bool" -> S_false [] t = "tb" -> S_false [] t = "duration" -> <<48, 115>> [] OTHER -> <<48>>
+ZeroText(t) == CASE t = "string" -> E [] t = "cc" -> E [] t = "um" -> E [] t = "us" -> E [] t = "bool" -> S_false [] t = "tb" -> S_false [] t = "duration" -> <<48, 115>> [] OTHER -> <<48>>
 ZeroVal(od) == IF od.kind = "scalar" THEN <<ZeroText(od.vtype)>> ELSE IF od.kind = "flag" THEN <<S_false>> ELSE <<>>
 
 \* the built-in help option that ParseArgs adds to every command when HelpFlag is set (parser.go:215-218)
